@@ -4,6 +4,7 @@ import (
 	"errors"
 	"fmt"
 	"math/rand"
+	"sort"
 	"strings"
 
 	"github.com/Shopify/sarama"
@@ -27,6 +28,8 @@ type Directive struct {
 	Whole int `json:"whole,omitempty"`
 	// Trailing: append the beginning of the next unit (a partial trailing message / batch)
 	Trailing bool `json:"trailing,omitempty"`
+	// IndexOrder of the aborted-transaction index: 0 shuffled, 1 descending by first offset, 2 ascending
+	IndexOrder int `json:"index_order,omitempty"`
 }
 
 // Served is what the broker answered.
@@ -85,11 +88,18 @@ func (g *Generated) Serve(rng *rand.Rand, offset int64, maxBytes int32, d Direct
 		for _, t := range g.Txns {
 			if t.Marker >= offset && t.First <= top {
 				part.Aborted = append(part.Aborted, [2]int64{t.PID, t.First})
-			} else if t.First > top && rng.Intn(3) == 0 {
+			} else if t.First > top && rng.Intn(3) != 0 {
 				part.Aborted = append(part.Aborted, [2]int64{t.PID, t.First}) // beyond the fetched range: harmless
 			}
 		}
-		rng.Shuffle(len(part.Aborted), func(i, j int) { part.Aborted[i], part.Aborted[j] = part.Aborted[j], part.Aborted[i] })
+		switch d.IndexOrder {
+		case 0:
+			rng.Shuffle(len(part.Aborted), func(i, j int) { part.Aborted[i], part.Aborted[j] = part.Aborted[j], part.Aborted[i] })
+		case 1:
+			sort.Slice(part.Aborted, func(i, j int) bool { return part.Aborted[i][1] > part.Aborted[j][1] })
+		case 2:
+			sort.Slice(part.Aborted, func(i, j int) bool { return part.Aborted[i][1] < part.Aborted[j][1] })
+		}
 	}
 	return Served{Kind: 0, From: from, To: to, Parts: []PartResp{part}}
 }
